@@ -35,6 +35,20 @@ def daqmx_file(draw, max_segments=3, max_channels=4, max_buffers=3, max_len=5, m
     nseg = draw(st.integers(1, max_segments))
     segs = []
     for si in range(nseg):
+        if si > 0 and draw(st.integers(0, 3)) == 0:
+            # raw-data-only continuation: no metadata block, same objects and layout as the previous segment,
+            # its own chunk count, buffer bytes and (independently) byte order
+            prev = segs[-1]
+            nchunks = draw(st.integers(1, max_chunks))
+            nb = len(prev['widths'])
+            buffers = [[draw(st.binary(min_size=prev['buf_lens'][b] * prev['widths'][b],
+                                       max_size=prev['buf_lens'][b] * prev['widths'][b])) for b in range(nb)]
+                       for _k in range(nchunks)]
+            seg_be = (draw(st.booleans()) if fixed_be is None else fixed_be) if be else False
+            cont = dict(prev, meta=False, newlist=False, entries=[], be=seg_be, nchunks=nchunks, buffers=buffers,
+                        eff_entries=[e for e in (prev.get('eff_entries') or prev['entries']) if e.get('hdr') == 'daqmx'])
+            segs.append(cont)
+            continue
         nbuf = draw(st.integers(1, max_buffers))
         widths = [draw(st.integers(1, max_width)) for _ in range(nbuf)]
         lens = [draw(st.integers(1, max_len)) for _ in range(nbuf)]
@@ -101,7 +115,7 @@ def daqmx_file(draw, max_segments=3, max_channels=4, max_buffers=3, max_len=5, m
             # channels defined in earlier segments may be re-listed as having no data in this one
             seen_before = []
             for prev in segs:
-                for e in prev['entries']:
+                for e in seg_entries(prev):
                     if e.get('hdr') == 'daqmx' and e['path'] not in seen_before:
                         seen_before.append(e['path'])
             here = set(e['path'] for e in ok_entries)
@@ -110,8 +124,14 @@ def daqmx_file(draw, max_segments=3, max_channels=4, max_buffers=3, max_len=5, m
                     ok_entries = ok_entries + [{'path': pth, 'hdr': 'nodata'}]
         segs.append({'be': seg_be, 'interleaved': False, 'version': 4713, 'meta': True, 'newlist': True, 'daqmx': True,
                      'entries': ok_entries, 'active': [[e['path'], 'daqmx', e['n']] for e in active_entries],
-                     'nchunks': nchunks, 'buffers': buffers, 'buf_lens': eff_lens, 'widths': list(widths)})
+                     'nchunks': nchunks, 'buffers': buffers, 'buf_lens': eff_lens, 'widths': list(widths),
+                     'toc_extra': (1 << 5) if draw(st.integers(0, 2)) == 0 else 0})
     return {'segments': segs}
+
+
+def seg_entries(seg):
+    """the DAQmx entries in force in a segment (its own, or the inherited ones of a metadata-less continuation)"""
+    return [e for e in (seg.get('eff_entries') or seg['entries']) if e.get('hdr') == 'daqmx']
 
 
 def scaler_chunk_values(seg, ent, scaler, k, rows=None):
@@ -139,9 +159,7 @@ def expected_daqmx(fs):
     for si, seg in enumerate(fs['segments']):
         if not seg.get('daqmx'):
             continue
-        for ent in seg['entries']:
-            if ent.get('hdr') != 'daqmx':
-                continue
+        for ent in seg_entries(seg):
             o = out.setdefault(ent['path'], {'chan_type': ent['chan_type'], 'scalers': {}, 'chunks': [], 'len': 0,
                                              'kind': ent['kind']})
             for k in range(seg['nchunks']):
@@ -220,7 +238,7 @@ def reencode_big_endian(seg):
             ba = bytearray(blob)
             w = seg['widths'][b]
             rows = len(ba) // w if w else 0
-            for e in seg['entries']:
+            for e in seg_entries(seg):
                 for s in e['scalers']:
                     if s['buf'] != b or e['kind'] != 'fc':
                         continue
